@@ -173,7 +173,9 @@ MalClasses == {"empty", "short1", "short2", "nob64", "b64rand", "b64trunc", "ove
                \* a peer that COMPLETES a well-formed credential-fetch handshake and resets its socket right after its last flight
                "resetAfterHandshake",
                \* a well-signed fetch request whose nonce is a well-formed activation token the server does not hold / is garbage
-               "unknownToken", "garbageToken"}
+               "unknownToken", "garbageToken",
+               \* a fetch request whose certificate key keeps the DER header of an Ed25519 key but has the wrong length
+               "keyTrunc", "keyHeaderOnly", "keyLong"}
 MalPrefixes == {"fetch", "auth", "pref"}
 
 (***************************************************************************)
